@@ -3,4 +3,4 @@ package props
 import "verif/core"
 
 func c17LookupCases(tier string) int { return 0 }
-func c17Lookup(c *core.Ctx, k int)  {}
+func c17Lookup(c *core.Ctx, k int)   {}
